@@ -241,6 +241,14 @@ def binop(interp, op, a, b, st, node):
     else:
         shape = broadcast(interp, sa, sb, st, node, what=name)
     term = T(name, a.term, b.term)
+    if name == "matmul" and a.term.op == "stack" and len(a.term.args) == 3 and a.term.args[0] == const(1) and a.term.args[2].op == "zeros" and sb is not None and len(sb) == 2 and sa is not None and len(sa) == 2:
+        # [A, 0] @ C = A @ C[:k]   (block product with a zero block)
+        k_t = a.term.args[2].args[1] if len(a.term.args[2].args) == 2 else None
+        if k_t is not None:
+            kdim = sa[1] - (k_t.args[0] if k_t.op == "dim" else Dim(int(k_t.args[0])) if k_t.op == "const" else Dim.unknown("k"))
+            if kdim.known():
+                none = const(None)
+                term = T("matmul", a.term.args[1], T("getitem", b.term, T("slice", none, dim_term(kdim), none)))
     if name == "matmul" and sa is not None and sb is not None and len(sa) == 1 and len(sb) == 1:
         # dot product of two vectors = sum of the elementwise product
         term = T("sum", T("mul", a.term, b.term))
@@ -582,6 +590,8 @@ def _canon_index(interp, base, idx):
         out.append(it)
     if all(o is _full_slice() for o in out):
         return None
+    if out and out[-1] is _full_slice():
+        changed = True  # a[:k, :] is a[:k]
     if not changed:
         return idx
     while out and out[-1] is _full_slice():
